@@ -45,7 +45,7 @@ def case_inputs(rng, th):
 	p, pl = per(lambda: rng.choice([5, 10, 20]))
 	c, cl = per(lambda: rng.choice([0, 1, 2]))
 	K, Kl = per(lambda: rng.choice([0, 0, 5, 20, 50]), shape=rng.choice(['scalar', 'scalar', 'list']))
-	g, gl = per(lambda: rng.choice([1.0, 1.0, 0.9, 0.95]), shape='scalar')
+	g, gl = per(lambda: rng.choice([1.0, 1.0, 0.9, 0.95, 0.5, 0.75]), shape=rng.choice(['scalar', 'scalar', 'list']))        # the discount factor may vary over the periods too
 	th_, tp_ = rng.choice([0, 1, 2]), rng.choice([0, 5, 20])
 	kind = rng.choice(['normal', 'normal', 'P', 'UD', 'CD', 'mixed', 'mixed'])
 	if kind == 'normal':
